@@ -1282,8 +1282,33 @@ const panicTestTmpl = `package %s
 
 import (
 	"fmt"
+	"os"
+	"sync/atomic"
 	"testing"
+	"time"
 )
+
+// watchdog: a call that does not return within ten seconds is reported with its input (termination is part of C06)
+var (
+	verifSeq  atomic.Int64
+	verifBusy atomic.Bool
+	verifNow  atomic.Value
+)
+
+func init() {
+	go func() {
+		last, since := int64(-1), time.Now()
+		for {
+			time.Sleep(200 * time.Millisecond)
+			if cur := verifSeq.Load(); cur != last {
+				last, since = cur, time.Now()
+			} else if verifBusy.Load() && time.Since(since) > 10*time.Second {
+				fmt.Printf("VERIF-CX no return from %%v within 10 s (termination)\n", verifNow.Load())
+				os.Exit(1)
+			}
+		}
+	}()
+}
 
 func verifEnum(alpha string, maxLen int) []string {
 	out := []string{""}
@@ -1335,7 +1360,11 @@ func TestVerifReplay(t *testing.T) {
 	strs = append(strs, "\x00", "\xff\xfe", "1.0\x00", "é", "１.０", "[", "]", "(,)", "[,]", "[1.0", "1.0]", ">=", "^", "~", "~>", "||", " || ", ",", "1.0 - ", " - 2.0", "!=", "==", "===", "vers:", "@stable", "dev-", "1.x", "x", "*", "=*")
 	e := &Ecosystem{}
 	try := func(what, in string, f func()) (ok bool) {
+		verifNow.Store(fmt.Sprintf("%%s(%%q)", what, in))
+		verifSeq.Add(1)
+		verifBusy.Store(true)
 		defer func() {
+			verifBusy.Store(false)
 			if r := recover(); r != nil {
 				fmt.Printf("VERIF-CX panic in %%s(%%q): %%v\n", what, in, r)
 				ok = false
